@@ -230,18 +230,21 @@ class ResourceMap:
         # Code is duplicated for extra performance
         keys = key.split(self.split_char)
         last_key = keys[-1]
-        target_map = parent_map = self
+        target_map = self
         # Last key is queried at last, as the value has to be
         # discriminated between handles and maps.
         for subkey in keys[:-1]:
             for layer in target_map.handles.maps:   # Overwrite duplicates
                 layer.pop(subkey, None)             # (in every layer)
-            target_map = target_map.maps.setdefault(subkey, ResourceMap())
-            # Intermediate maps (possibly just created) are resources
-            # of the map they are reached from
-            target_map.parent = parent_map
-            target_map.key = subkey
-            parent_map = target_map
+            submap = target_map.maps.get(subkey)
+            if submap is None:
+                # Missing intermediate map: create it as a resource of
+                # the map it is reached from. Existing maps keep the
+                # links of their latest assignment.
+                submap = target_map.maps[subkey] = ResourceMap()
+                submap.parent = target_map
+                submap.key = subkey
+            target_map = submap
 
         # For better performance, only one type check is done at this
         # point.
